@@ -31,6 +31,11 @@ def run(tier):
         if q and (v + o + l) % 2:
             continue
         mj.append(dict(base, harness="VerifC16Marker", params={"shape": 0, "x0": 0, "v0": v, "o0": o, "l0": l, "w": 1, "q": l % 2}))
+    # version literals padded with a space inside the quotes (packaging strips it)
+    for v, o, l in itertools.product([0, 1, 2], range(7), [12, 13, 14]):
+        if q and (v + o + l) % 2:
+            continue
+        mj.append(dict(base, harness="VerifC16Marker", params={"shape": 0, "x0": 0, "v0": v, "o0": o, "l0": l, "w": 1, "q": l % 2}))
     # literal on the left: ordering of versions, equality/containment of strings, extra on the right
     for v, o, l in itertools.product([0, 1, 2], range(6), [1, 2, 6, 9]):
         if q and (v + o + l) % 3:
